@@ -102,10 +102,12 @@ private:
 
             // Two roots computed from the quadratic equation
             const Complex nu = m_ritz_val[i];
-            const Complex root_part1 = m_sigmar + Scalar(0.5) / nu;
-            const Complex root_part2 = Scalar(0.5) * sqrt(Scalar(1) - Scalar(4) * m_sigmai * m_sigmai * (nu * nu)) / nu;
-            const Complex root1 = root_part1 + root_part2;
-            const Complex root2 = root_part1 - root_part2;
+            const Complex disc = sqrt(Scalar(1) - Scalar(4) * m_sigmai * m_sigmai * (nu * nu));
+            // The root of smaller modulus, (1 - disc) / (2 * nu), in a form without division by nu:
+            // nu is exactly zero for a real eigenvalue equal to sigmar (e.g. the identity matrix
+            // with sigmar = 1), and then this is the only root
+            const Complex root2 = m_sigmar + Scalar(2) * m_sigmai * m_sigmai * nu / (Scalar(1) + disc);
+            const Complex root1 = (nu == Complex(0)) ? root2 : Complex(m_sigmar + (Scalar(1) + disc) / (Scalar(2) * nu));
 
             // Test roots
             Scalar err1 = Scalar(0), err2 = Scalar(0);
